@@ -16,6 +16,7 @@ import (
 	"github.com/gordian-engine/gordian/gcrypto"
 	"github.com/gordian-engine/gordian/gwatchdog"
 	"github.com/gordian-engine/gordian/internal/glog"
+	"github.com/gordian-engine/gordian/internal/verifhook"
 	"github.com/gordian-engine/gordian/tm/tmconsensus"
 	"github.com/gordian-engine/gordian/tm/tmengine/internal/tmeil"
 	"github.com/gordian-engine/gordian/tm/tmengine/internal/tmemetrics"
@@ -285,6 +286,8 @@ func (k *Kernel) Wait() {
 }
 
 func (k *Kernel) mainLoop(ctx context.Context, s *kState, wd *gwatchdog.Watchdog) {
+	defer verifhook.Catch(ctx, "tmi.kernel")
+
 	ctx, task := trace.NewTask(ctx, "Mirror.kernel.mainLoop")
 	defer task.End()
 
